@@ -86,13 +86,14 @@ func goFacts(p *pkgInfo) string {
 	callBinGoArg := un("callBin go branch")
 	callBinGoStmt := un("callBin go statement")
 	callBinGoArgsCopied := false
-	getFuncClones, getFuncAncIsClone, getFuncStoreLocked, getFuncRestoreLocked := false, false, false, false
+	getFuncClones, getFuncAncIsClone, getFuncStoreLocked, getFuncNoDefFrameWrite := false, false, false, false
 	cloneLocked, cloneCopiesData := false, false
 	selectDoneLocked := false
 	casesPerStatement := false
 	selectCopiesCases := false
 	wrapperFramePerCall := false
 	wrapperRecvBound := false
+	wrapperLateRecv := un("genFunctionWrapper: late")
 
 	if frun != nil {
 		// ---- call
@@ -220,22 +221,38 @@ func goFacts(p *pkgInfo) string {
 				}
 				ast.Inspect(cl.Body, func(nd ast.Node) bool {
 					if as, ok := nd.(*ast.AssignStmt); ok && len(as.Rhs) == 1 && as.Tok == token.DEFINE {
-						if r := exprString(as.Rhs[0]); strings.HasPrefix(r, "newFrame(") {
+						// newCallFrame(anc, n) = newFrame(anc, n, <run id of the root frame>) (fingerprinted)
+						if r := exprString(as.Rhs[0]); strings.HasPrefix(r, "newFrame(") || strings.HasPrefix(r, "newCallFrame(") {
 							newFrameCalls = append(newFrameCalls, "getFunc: "+exprString(as.Lhs[0])+" := "+r)
-							if strings.HasPrefix(r, "newFrame(fr,") {
+							if strings.HasPrefix(r, "newFrame(fr,") || strings.HasPrefix(r, "newCallFrame(fr,") {
 								getFuncAncIsClone = true
 							}
 						}
 					}
 					return true
 				})
+				// the function made for the literal (the reflect.MakeFunc callback) does not touch the DEFINING frame f:
+				// no statement of it mentions f (in particular no `getFrame(f, l).data[i] = …` after the call)
+				getFuncNoDefFrameWrite = false
+				ast.Inspect(cl.Body, func(nd ast.Node) bool {
+					fl, ok := nd.(*ast.FuncLit)
+					if !ok || exprString(fl.Type) != "func(in []reflect.Value) []reflect.Value" {
+						return true
+					}
+					getFuncNoDefFrameWrite = true
+					ast.Inspect(fl.Body, func(y ast.Node) bool {
+						if id, ok := y.(*ast.Ident); ok && id.Name == "f" {
+							getFuncNoDefFrameWrite = false
+						}
+						return true
+					})
+					return false
+				})
 				eachStmtList(cl.Body, func(list []ast.Stmt) {
 					for k, s := range list {
 						switch exprString(s) {
 						case "getFrame(f, l).data[i] = fct":
 							getFuncStoreLocked = lockedBy(list, k, "f.mutex", false)
-						case "getFrame(f, l).data[i] = o":
-							getFuncRestoreLocked = lockedBy(list, k, "f.mutex", false)
 						}
 					}
 				})
@@ -243,25 +260,51 @@ func goFacts(p *pkgInfo) string {
 		}
 		// ---- genFunctionWrapper: one frame per call of the wrapper
 		if fd := common.FindFunc(frun, "", "genFunctionWrapper"); fd != nil {
-			// the receiver is read (`rcvr(f)`) when the wrapper is made, never inside the MakeFunc callback,
-			// and a value receiver is copied
-			early, late, copied := 0, 0, false
-			var walk func(nd ast.Node, inCallback bool)
-			walk = func(nd ast.Node, inCallback bool) {
+			// the receiver read from the FRAME (`rcvr(f)`) is resolved by bindRecv, a closure made outside the
+			// reflect.MakeFunc callback, which copies a value receiver; it is called when the wrapper is made
+			// (`if rcvr != nil && !late { recv = bindRecv() }`); inside the callback it is called only in the
+			// `case late:` arm, and late means that the receiver has no node (the constant value held by a host
+			// interface, not a frame slot)
+			early, lateCalls, copied, boundEarly, lateOnlyInLateArm := 0, 0, false, false, true
+			var walk func(nd ast.Node, inCallback bool, underLate bool)
+			walk = func(nd ast.Node, inCallback bool, underLate bool) {
 				ast.Inspect(nd, func(x ast.Node) bool {
 					switch y := x.(type) {
 					case *ast.FuncLit:
 						if y != nd {
-							walk(y.Body, inCallback || exprString(y.Type) == "func(in []reflect.Value) []reflect.Value")
+							walk(y.Body, inCallback || exprString(y.Type) == "func(in []reflect.Value) []reflect.Value", underLate)
 							return false
+						}
+					case *ast.CaseClause:
+						if inCallback && len(y.List) == 1 && exprString(y.List[0]) == "late" {
+							for _, st := range y.Body {
+								walk(st, inCallback, true)
+							}
+							return false
+						}
+					case *ast.IfStmt:
+						if !inCallback && exprString(y.Cond) == "rcvr != nil && !late" {
+							for _, st := range y.Body.List {
+								if exprString(st) == "recv = bindRecv()" {
+									boundEarly = true
+								}
+							}
+						}
+					case *ast.AssignStmt:
+						if len(y.Lhs) == 1 && exprString(y.Lhs[0]) == "late" && len(y.Rhs) == 1 && y.Tok == token.ASSIGN {
+							wrapperLateRecv = exprString(y.Rhs[0])
 						}
 					case *ast.CallExpr:
 						switch exprString(y) {
 						case "rcvr(f)":
 							if inCallback {
-								late++
+								lateCalls++
 							} else {
 								early++
+							}
+						case "bindRecv()":
+							if inCallback && !underLate {
+								lateOnlyInLateArm = false
 							}
 						case "copyDeferArg(src)":
 							if !inCallback {
@@ -272,8 +315,8 @@ func goFacts(p *pkgInfo) string {
 					return true
 				})
 			}
-			walk(fd.Body, false)
-			wrapperRecvBound = early > 0 && late == 0 && copied
+			walk(fd.Body, false, false)
+			wrapperRecvBound = early > 0 && lateCalls == 0 && copied && boundEarly && lateOnlyInLateArm
 			ast.Inspect(fd.Body, func(nd ast.Node) bool {
 				fl, ok := nd.(*ast.FuncLit)
 				if !ok || p.isRuntimeClosure(fl) {
@@ -284,7 +327,8 @@ func goFacts(p *pkgInfo) string {
 					return true
 				}
 				for _, s := range fl.Body.List {
-					if as, ok := s.(*ast.AssignStmt); ok && as.Tok == token.DEFINE && len(as.Rhs) == 1 && strings.HasPrefix(exprString(as.Rhs[0]), "newFrame(f,") {
+					if as, ok := s.(*ast.AssignStmt); ok && as.Tok == token.DEFINE && len(as.Rhs) == 1 &&
+						(strings.HasPrefix(exprString(as.Rhs[0]), "newFrame(f,") || strings.HasPrefix(exprString(as.Rhs[0]), "newCallFrame(f,")) {
 						wrapperFramePerCall = true
 						newFrameCalls = append(newFrameCalls, "genFunctionWrapper: "+exprString(as.Lhs[0])+" := "+exprString(as.Rhs[0]))
 					}
@@ -334,10 +378,10 @@ func goFacts(p *pkgInfo) string {
 
 	var b strings.Builder
 	b.WriteString("open YaegiVerif.ConcFrames in\n/-- interp/run.go call, callBin, getFunc, genFunctionWrapper, _select; interp/interp.go frame.clone -/\ndef goFacts : GoFacts :=\n")
-	fmt.Fprintf(&b, "  { goBinArgsCopied := %s,\n    srcArgsCopied := %s,\n    frameInClosure := %s,\n    wrapperFramePerCall := %s,\n    wrapperRecvBound := %s,\n    callBinGoArgsCopied := %s,\n    callBinGoArg := %s,\n    callBinGoStmt := %s,\n    getFuncClones := %s,\n    getFuncAncIsClone := %s,\n    getFuncStoreLocked := %s,\n    getFuncRestoreLocked := %s,\n    cloneLocked := %s,\n    cloneCopiesData := %s,\n    selectDoneLocked := %s,\n    casesPerStatement := %s,\n    selectCopiesCases := %s,\n    callArgStores := %s,\n    frameCellInits := %s,\n    goStmts := %s,\n    newFrameCalls := %s }\n",
-		boolLean(goBinArgsCopied), boolLean(srcArgsCopied), boolLean(frameInClosure), boolLean(wrapperFramePerCall), boolLean(wrapperRecvBound),
+	fmt.Fprintf(&b, "  { goBinArgsCopied := %s,\n    srcArgsCopied := %s,\n    frameInClosure := %s,\n    wrapperFramePerCall := %s,\n    wrapperRecvBound := %s,\n    wrapperLateRecv := %s,\n    callBinGoArgsCopied := %s,\n    callBinGoArg := %s,\n    callBinGoStmt := %s,\n    getFuncClones := %s,\n    getFuncAncIsClone := %s,\n    getFuncStoreLocked := %s,\n    getFuncNoDefFrameWrite := %s,\n    cloneLocked := %s,\n    cloneCopiesData := %s,\n    selectDoneLocked := %s,\n    casesPerStatement := %s,\n    selectCopiesCases := %s,\n    callArgStores := %s,\n    frameCellInits := %s,\n    goStmts := %s,\n    newFrameCalls := %s }\n",
+		boolLean(goBinArgsCopied), boolLean(srcArgsCopied), boolLean(frameInClosure), boolLean(wrapperFramePerCall), boolLean(wrapperRecvBound), common.LeanStr(wrapperLateRecv),
 		boolLean(callBinGoArgsCopied), common.LeanStr(callBinGoArg), common.LeanStr(callBinGoStmt),
-		boolLean(getFuncClones), boolLean(getFuncAncIsClone), boolLean(getFuncStoreLocked), boolLean(getFuncRestoreLocked),
+		boolLean(getFuncClones), boolLean(getFuncAncIsClone), boolLean(getFuncStoreLocked), boolLean(getFuncNoDefFrameWrite),
 		boolLean(cloneLocked), boolLean(cloneCopiesData), boolLean(selectDoneLocked), boolLean(casesPerStatement), boolLean(selectCopiesCases),
 		common.LeanStrList(callArgStores), common.LeanStrList(frameCellInits), common.LeanStrList(goStmts), common.LeanStrList(newFrameCalls))
 	return b.String()
